@@ -233,9 +233,15 @@ func judgeCallHistory(calls []string) {
 func sigHistories(realKey *rsa.PublicKey, objLen, callLen int) int64 {
 	old := user.VerifSetMojangKey(&fam.other.PublicKey)
 	defer user.VerifSetMojangKey(old)
+	// neighbour forgeries need only the trusted-key seam, not the two genuine pairs of the history menus
+	nb := 320
+	if rep.Thorough() {
+		nb = 1100
+	}
+	nNb := neighbourFamily(nb)
 	if !initHist(realKey) {
 		rep.Cap("signature histories skipped: with the harness key installed as the trusted key no framing of the menu yields a pair VerifySignature accepts, so no genuine verification can precede a forgery")
-		return 0
+		return nNb
 	}
 	// call histories: sequential (the state they probe is process-wide), fixed order
 	var nCalls int64
@@ -271,5 +277,5 @@ func sigHistories(realKey *rsa.PublicKey, objLen, callLen int) int64 {
 	rep.Count("sig_object_histories", int64(len(seqs)))
 	rep.Extra("sig_call_history_menu", fmt.Sprintf("%d calls (keys H,M,empty,garbage x signatures gH,gM,zeros,gH^1,empty), every sequence of length <= %d", len(callMenu), callLen))
 	rep.Extra("sig_object_history_menu", fmt.Sprintf("%d ops %v, every sequence of length <= %d after a genuine Verify", len(objOps), objOps, objLen))
-	return nCalls + int64(len(seqs))
+	return nCalls + int64(len(seqs)) + nNb
 }
